@@ -44,7 +44,7 @@ def to_steps(acts):
 
 def sched(name, c, acts):
     cfg = {'Addrs': sorted(c['Addrs']), 'MaxConns': c['MaxConns'], 'MaxIdle': c['MaxIdle'], 'KeepAlive': c['KeepAlive'],
-           'IdleTO': c['IdleTO'], 'UnitMs': 6}
+           'IdleTO': c['IdleTO'], 'UnitMs': 50}
     return {'name': name, 'cfg': cfg, 'steps': to_steps(acts)}
 
 def deviation_schedule(tag, c, dev):
